@@ -5,6 +5,7 @@ import (
 	"crypto/sha256"
 	"flag"
 	"fmt"
+	"hash"
 	"os"
 	"runtime/pprof"
 	"sort"
@@ -98,6 +99,8 @@ func budget(family string, k int, shared, iso, thorough bool, full int) int {
 	}
 	return full
 }
+
+func newSHA256() hash.Hash { return sha256.New() }
 
 func isoC14n(decomp, dist bool) func(st []*rdf.Statement) ([]*rdf.Statement, error) {
 	return func(st []*rdf.Statement) ([]*rdf.Statement, error) {
